@@ -95,6 +95,7 @@ def run(ctx):
     df = repo.fn(DC, 'decompile')
     ks = [s for s in walk_no_nested(df.node) if isinstance(s, ast.Assign) and any(dotted(t) == 'key' for t in s.targets)]
     ok = bool(ks) and all(norm(s.value).startswith('get_codeobject_id(') for s in ks)
+    C05.pin_store_strong(ctx, prefix='C03-PIN')
     ctx.ob('C03-PIN.ast-cache-keyed-by-pinned-id', df, ks[0] if ks else df.node, ok, '' if ok else 'ast_cache key is %s' % [norm(s.value) for s in ks])
     C05.key_rule(ctx, only={'decompile'}, prefix='C03-KEY', floor=1)
 
@@ -103,6 +104,7 @@ MUTANTS = [
     dict(id='C03-m1', file='pony/orm/decompiling.py', fn='Decompiler.conditional_jump_none_impl', old='        decompiler.targets.setdefault(endpos, clause)', new='        decompiler.targets[endpos] = clause', expect='C03-TARGETS'),
     dict(id='C03-m2', file='pony/orm/decompiling.py', fn='Decompiler.decompile', old="            if method is None:\n                throw(DecompileError('Unsupported operation: %s' % opname))\n", new="            if method is None: continue\n", expect='C03-REJECT'),
     dict(id='C03-m3', file='pony/orm/decompiling.py', fn='decompile', old='    key = get_codeobject_id(codeobject)', new='    key = id(codeobject)', expect='C03-PIN'),
+    dict(id='C03-m4b', file='pony/utils/utils.py', fn=None, old='codeobjects = {}', new='import weakref\ncodeobjects = weakref.WeakValueDictionary()', expect='C03-PIN.pin-table-holds-strong'),
     dict(id='C03-m4', file='pony/utils/utils.py', fn='get_codeobject_id', old='        codeobjects[codeobject_id] = codeobject', new='        pass', expect='C03-PIN'),
     dict(id='C03-m5', file='pony/orm/decompiling.py', fn='Decompiler.conditional_jump_new', old='        decompiler.targets.setdefault(endpos, clause)', new='        decompiler.targets[endpos] = clause', expect='C03-TARGETS'),
 ]
